@@ -5,6 +5,7 @@ import (
 	"errors"
 	"net"
 	"net/netip"
+	"os"
 	"time"
 
 	"github.com/IrineSistiana/mosproxy/internal/dnsmsg"
@@ -24,10 +25,11 @@ type vTCPConn struct {
 	closed   bool
 	writes   [][]byte
 	remote   net.Addr
+	timeout  chan struct{} // the harness lets the read deadline strike: the next / current blocked Read fails once
 }
 
 func newVTCPConn() *vTCPConn {
-	return &vTCPConn{inbox: make(chan []byte, 16), closedCh: make(chan struct{}),
+	return &vTCPConn{inbox: make(chan []byte, 16), closedCh: make(chan struct{}), timeout: make(chan struct{}, 1),
 		remote: &net.TCPAddr{IP: net.IP{192, 0, 2, 1}, Port: 5353}}
 }
 
@@ -38,6 +40,8 @@ func (c *vTCPConn) Read(p []byte) (int, error) {
 			c.pend = b
 		case <-c.closedCh:
 			return 0, errVNet
+		case <-c.timeout:
+			return 0, os.ErrDeadlineExceeded
 		}
 	}
 	n := copy(p, c.pend)
